@@ -190,6 +190,10 @@ theorem C03_closure_release_never_waits :
 theorem C03_nested_call_errors_pass_through_utils_call :
     Skeleton.current.ucResultsUntouched = true ∧ Skeleton.current.ucNoWaiting = true := by decide
 
+/-- M2's response loop reports EVERY frame the codec rejects (`respFrame` with a decode failure → `setErr`): `Response.Unmarshal` hands the codec's error on as it is — it does nothing but call the user's function on the struct (checked against the regenerated skeleton; `utils/messages.go` is outside this property's anchors). A version that swallowed the error for frames with a non-empty `err` would leave the link up and the call the frame was meant for blocked for ever. -/
+theorem C03_an_undecodable_response_reaches_setErr :
+    Skeleton.current.msgCodecPlain = true ∧ Skeleton.current.errBranchesHandled = true ∧ Skeleton.current.respLoopSetErrOnReadErr = true := by decide
+
 end Panrpc.Ep
 
 #print axioms Panrpc.Ep.C03_read_failure_reaches_setErr
@@ -210,3 +214,4 @@ end Panrpc.Ep
 #print axioms Panrpc.Ep.C03_recover_blocks_canonical
 #print axioms Panrpc.Ep.C03_closure_release_never_waits
 #print axioms Panrpc.Ep.C03_nested_call_errors_pass_through_utils_call
+#print axioms Panrpc.Ep.C03_an_undecodable_response_reaches_setErr
